@@ -133,6 +133,8 @@ async fn scenario(sim: Arc<Sim>, unit: Value) -> Obs {
         match tower.as_str() {
             "inflight-block" => sim.start_inflight(&spec, 3, true),
             "inflight-error" => sim.start_inflight(&spec, 3, false),
+            // a service that exerts backpressure through poll_ready: one request at a time
+            "concurrency-1" => sim.start_limited(&spec, 1),
             _ => sim.start(&spec),
         }
         .unwrap()
@@ -226,6 +228,30 @@ async fn scenario(sim: Arc<Sim>, unit: Value) -> Obs {
             }
         }
     }
+    // (with a one-at-a-time service the sibling occupies it: it is released first, and nothing
+    // that was abandoned while waiting for the service may be served afterwards)
+    let mut sib_task = Some(sib_task);
+    if tower == "concurrency-1" {
+        sim.svc.release("sib");
+        match tokio::time::timeout(ms(10_000), sib_task.take().unwrap()).await {
+            Err(_) => o.violations.push(("sibling-affected".into(), "the sibling RPC never completed".into())),
+            Ok(r) => {
+                if let Err(e) = r.unwrap().result {
+                    o.violations.push(("sibling-affected".into(), format!("the sibling RPC failed: {e}")));
+                }
+            }
+        }
+        tokio::time::sleep(ms(50)).await;
+        for (id, t_abandon, finished) in &abandoned {
+            if !*finished {
+                if let Some(start) = sim.svc.start_at(id) {
+                    if start > *t_abandon + LAT_US + slack {
+                        o.violations.push(("abandoned-request-served".into(), format!("call {id} was abandoned at {t_abandon}us while it waited for the service; its handler was started at {start}us all the same")));
+                    }
+                }
+            }
+        }
+    }
     // 2. a fresh RPC right now must go through within 2 RTT (no stream credit leaked)
     let fresh = RpcSpec::new("fresh").route("/fresh").body(pattern_body(8, 40));
     let t0 = sim.now_us();
@@ -246,6 +272,7 @@ async fn scenario(sim: Arc<Sim>, unit: Value) -> Obs {
     }
     // 3. the sibling is unaffected
     sim.svc.release("sib");
+    if let Some(sib_task) = sib_task.take() {
     match tokio::time::timeout(ms(10_000), sib_task).await {
         Err(_) => o.violations.push(("sibling-affected".into(), "the sibling RPC never completed".into())),
         Ok(r) => match r.unwrap().result {
@@ -256,6 +283,7 @@ async fn scenario(sim: Arc<Sim>, unit: Value) -> Obs {
                 }
             }
         },
+    }
     }
     tokio::time::sleep(ms(100)).await;
     // 4. nothing left running on the serving side, connection undisturbed
@@ -280,7 +308,7 @@ impl Check for C12 {
         CheckMeta {
             property: "C12",
             level: "fault_enumeration",
-            rule: "abandon point enumeration: the caller's future is dropped never-polled, after its first poll, after every n-th datagram it sends (small request and a 200 KiB multi-flight request), at every 500 us instant up to completion, and at offsets after the remote handler started; handler instant / 10 ms / never; both call directions; plus histories of 3 x limit abandoned calls with max_concurrent_bidi_streams in {2,4} and 300 with the default 100; the histories also with anemo-tower's per-peer in-flight limit (3, Block and ReturnError) around the services; each with a never-abandoned sibling RPC in flight and a fresh RPC afterwards; datagram fates within the deviation bound; distinct = distinct (handlers started, calls finished before the abandon)".into(),
+            rule: "abandon point enumeration: the caller's future is dropped never-polled, after its first poll, after every n-th datagram it sends (small request and a 200 KiB multi-flight request), at every 500 us instant up to completion, and at offsets after the remote handler started; handler instant / 10 ms / never; both call directions; plus histories of 3 x limit abandoned calls with max_concurrent_bidi_streams in {2,4} and 300 with the default 100; the histories also with anemo-tower's per-peer in-flight limit (3, Block and ReturnError) around the services, and with a one-request-at-a-time service (poll_ready backpressure) occupied by the sibling so that the abandoned calls wait for the service; each with a never-abandoned sibling RPC in flight and a fresh RPC afterwards; datagram fates within the deviation bound; distinct = distinct (handlers started, calls finished before the abandon)".into(),
             assumptions: vec!["prompt = one-way latency + 2 ms of virtual time without injected faults; with an injected fault the cancellation may need a retransmission (3.5 s allowed)".into()],
             exhaustive: true,
         }
@@ -335,7 +363,10 @@ impl Check for C12 {
                     // the same histories with a per-peer in-flight limit of 3 around the services
                     // (spaced, so that at most one abandoned call holds a slot besides the sibling)
                     if limit != Some(2) && pattern != 2 && !(limit.is_none() && tier == Tier::Quick) {
-                        for tower in ["inflight-block", "inflight-error"] {
+                        for tower in ["inflight-block", "inflight-error", "concurrency-1"] {
+                            // behind an occupied one-at-a-time service no handler starts: abandon
+                            // after a delay instead of after the handler's start
+                            let abandons: Vec<Value> = abandons.iter().map(|a| if tower == "concurrency-1" && a["how"] == "handler_start" { ab("us", 3_000) } else { a.clone() }).collect();
                             u.push(json!({"kind":"history","reverse":reverse,"bidi_limit":limit,"handler":"never","body_len":64,"abandons":abandons,"spacing_us":30_000,"bound":0,"fate_budget":0,"tower":tower}));
                         }
                     }
